@@ -119,7 +119,7 @@ fn render_acc(dir: &Path, target: &Path, shim: &Path, rc: &RunCfg) -> Result<Str
     let lib = dir.join("src/lib.rs");
     let src = std::fs::read_to_string(&lib).map_err(|e| e.to_string())?;
     std::fs::write(&lib, &src).map_err(|e| e.to_string())?;
-    let out = cargo_cmd(dir, target, Some((shim, rc))).args(["rustc", "--lib", "--offline", "-q", "--", "-Zunpretty=expanded"]).output().map_err(|e| format!("cargo: {}", e))?;
+    let out = cargo_cmd(dir, target, Some((shim, rc))).args(["rustc", "--lib", "--offline", "-q", "--", "-Zunpretty=expanded,hygiene"]).output().map_err(|e| format!("cargo: {}", e))?;
     let s = String::from_utf8_lossy(&out.stdout).into_owned();
     if !s.contains("impl") {
         return Err(format!("acc crate: no expanded output; stderr: {}", String::from_utf8_lossy(&out.stderr).chars().take(800).collect::<String>()));
